@@ -200,6 +200,8 @@ pub struct TraceGen {
     len: u8,
     /// The target answers the last probe of a round from its own address.
     reach: bool,
+    /// Nothing answers during the first rounds (hops without any address are on display).
+    mute_rounds: usize,
     target: IpAddr,
 }
 
@@ -215,6 +217,7 @@ impl TraceGen {
             branches: if multipath { rng.random_range(1..4) } else { 1 },
             len: rng.random_range(0..10),
             reach: rng.random_bool(0.6),
+            mute_rounds: 0,
             target,
         }
     }
@@ -245,7 +248,7 @@ impl TraceGen {
                 sent: base,
                 flags: Flags::empty(),
             };
-            if self.silent.contains(&ttl) || rng.random_range(0..5) == 0 {
+            if self.round < self.mute_rounds || self.silent.contains(&ttl) || rng.random_range(0..5) == 0 {
                 probes.push(ProbeStatus::Awaited(p));
             } else {
                 largest = ttl;
@@ -285,6 +288,60 @@ impl TraceGen {
     /// Address counts per hop of the default flow.
     fn addrs0(&self) -> Vec<usize> {
         self.tracer.snapshot().hops().iter().map(trippy_core::Hop::addr_count).collect()
+    }
+
+    /// A round in which `len` probes go out and nothing answers (hops without any address).
+    fn apply_silent(&mut self, len: u8) -> Value {
+        let base = SystemTime::UNIX_EPOCH + Duration::from_secs(1_700_000_000 + self.round as u64);
+        let mut probes = Vec::new();
+        for i in 0..len {
+            self.seq = self.seq.wrapping_add(1);
+            probes.push(ProbeStatus::Awaited(Probe {
+                sequence: Sequence(self.seq),
+                identifier: TraceId(1),
+                src_port: Port(5000),
+                dest_port: Port(33434),
+                ttl: TimeToLive(self.first_ttl.saturating_add(i)),
+                round: RoundId(self.round),
+                sent: base,
+                flags: Flags::empty(),
+            }));
+        }
+        let round = Round::new(&probes, TimeToLive(self.first_ttl.saturating_add(len).saturating_sub(1)), CompletionReason::RoundTimeLimitExceeded);
+        self.tracer.verif_apply_round(&round);
+        self.round += 1;
+        json!({"e":"upd","kind":"silent","n":len})
+    }
+
+    /// A round of `len` hops on branch 1 in which hop `i` (0-based) answers from one more, new address.
+    fn apply_addr(&mut self, len: u8, i: u8) -> Value {
+        let base = SystemTime::UNIX_EPOCH + Duration::from_secs(1_700_000_000 + self.round as u64);
+        let known = self.addrs0().get(usize::from(i)).copied().unwrap_or(0) as u8;
+        let mut probes = Vec::new();
+        for k in 0..len {
+            let ttl = self.first_ttl.saturating_add(k);
+            self.seq = self.seq.wrapping_add(1);
+            probes.push(ProbeStatus::Complete(ProbeComplete {
+                sequence: Sequence(self.seq),
+                identifier: TraceId(1),
+                src_port: Port(5000),
+                dest_port: Port(33434),
+                ttl: TimeToLive(ttl),
+                round: RoundId(self.round),
+                sent: base,
+                host: if k == i { hop_addr(ttl, 50 + known) } else { hop_addr(ttl, 1) },
+                received: base + Duration::from_micros(1000),
+                icmp_packet_type: IcmpPacketType::TimeExceeded(trippy_core::verif::IcmpPacketCode(0)),
+                tos: None,
+                expected_udp_checksum: None,
+                actual_udp_checksum: None,
+                extensions: None,
+            }));
+        }
+        let round = Round::new(&probes, TimeToLive(self.first_ttl.saturating_add(len).saturating_sub(1)), CompletionReason::TargetFound);
+        self.tracer.verif_apply_round(&round);
+        self.round += 1;
+        json!({"e":"upd","kind":"round","n":len,"largest":len,"branch":1})
     }
 
     /// A round on ECMP branch `branch` in which hops 1..=len all answer from branch-specific addresses.
@@ -481,6 +538,7 @@ pub fn run(seed: u64, n: usize, family: &str, out: &str, stats_path: Option<&str
                 branches: if strat == MultipathStrategy::Classic { 1 } else { rng.random_range(1..4) },
                 len: rng.random_range(0..10),
                 reach: scripts.get(sc).is_none() && rng.random_bool(0.6),
+                mute_rounds: if scripts.get(sc).is_none() && rng.random_range(0..4) == 0 { rng.random_range(1..8) } else { 0 },
                 target,
             });
         }
@@ -515,6 +573,21 @@ pub fn run(seed: u64, n: usize, family: &str, out: &str, stats_path: Option<&str
                 last_key.clear();
                 return match st.d.as_str() {
                     "tick" => Step::Tick,
+                    "addr" => {
+                        let len = flen[st.t].iter().copied().max().unwrap_or(0);
+                        let mut ev = gens[st.t].apply_addr(len, st.f);
+                        ev["d"] = json!("addr");
+                        ev["t"] = json!(st.t);
+                        ev["f"] = json!(st.f);
+                        ev["addrs"] = json!(gens[st.t].addrs0());
+                        events.push(ev);
+                        Step::Tick
+                    }
+                    "silent" => {
+                        let ev = gens[st.t].apply_silent(st.f.max(1));
+                        events.push(ev);
+                        Step::Tick
+                    }
                     "flow" => {
                         // a new branch answers from its own first hop: a new flow with one hop
                         let nf = flen[st.t].iter().filter(|x| **x > 0).count() as u8 + 1;
